@@ -59,7 +59,11 @@ func (g *c35G) sdpFmtp(codec string, pt string) []string {
 		case 2:
 			add("packetization-mode=" + g.num() + ";sprop-parameter-sets=" + b64(c35SPS) + "," + b64(c35PPS) + ";profile-level-id=" + g.pick("42c028", "", "zz", "42c0280000", "4"))
 		case 3:
-			add("packetization-mode=1;sprop-parameter-sets=" + g.pick("", ",", "AAAA", "Zw==,aA==", "!!!,???", b64(c35SPS), ","+b64(c35PPS), b64(c35SPS[:3])+","+b64(c35PPS), b64([]byte{0x67})+","+b64([]byte{0x68}), strings.Repeat("A", 20000)))
+			sprop := g.pick("", ",", "AAAA", "Zw==,aA==", "!!!,???", b64(c35SPS), ","+b64(c35PPS), b64(c35SPS)+",", b64(c35SPS[:3])+","+b64(c35PPS), b64([]byte{0x67})+","+b64([]byte{0x68}), strings.Repeat("A", 20000))
+			if (sprop == "," || strings.HasPrefix(sprop, ",") || strings.HasSuffix(sprop, ",")) && g.x.AvoidKey(c35KeyH264EmptySprop) {
+				sprop = "Zw==,aA==" // known finding: an empty parameter set is prepended to IDR frames and crashes the HLS muxer
+			}
+			add("packetization-mode=1;sprop-parameter-sets=" + sprop)
 		case 4:
 			add(g.pick("", ";", "=", ";;;", "a", "a=", "=b", "packetization-mode", "packetization-mode=1;packetization-mode=0", " packetization-mode = 1 ", "PACKETIZATION-MODE=1", strings.Repeat("a=b;", 3000)))
 		default:
@@ -69,7 +73,11 @@ func (g *c35G) sdpFmtp(codec string, pt string) []string {
 		switch g.oddCase(4, 2) {
 		case 0:
 		case 1:
-			add("sprop-vps=" + g.pick("", "QAEMAf//AWAAAAMAkAAAAwAAAwB4mZgJ", "!!", "AA==") + ";sprop-sps=" + g.pick("", "QgEBAWAAAAMAkAAAAwAAAwB4oAPAgBDllmZpJMrgEAAAAwAQAAADAeCA", "Qg==", "!!") + ";sprop-pps=" + g.pick("", "RAHBcrRiQA==", "RA==", "!!") + ";sprop-max-don-diff=" + g.num())
+			vps, sps, pps := g.pick("", "QAEMAf//AWAAAAMAkAAAAwAAAwB4mZgJ", "!!", "AA=="), g.pick("", "QgEBAWAAAAMAkAAAAwAAAwB4oAPAgBDllmZpJMrgEAAAAwAQAAADAeCA", "Qg==", "!!"), g.pick("", "RAHBcrRiQA==", "RA==", "!!")
+			if (vps == "" || sps == "" || pps == "") && g.x.AvoidKey(c35KeyH264EmptySprop) {
+				vps, sps, pps = "QAEMAf//AWAAAAMAkAAAAwAAAwB4mZgJ", "Qg==", "RA==" // known finding: empty parameter sets (same remuxer pattern as H264)
+			}
+			add("sprop-vps=" + vps + ";sprop-sps=" + sps + ";sprop-pps=" + pps + ";sprop-max-don-diff=" + g.num())
 		default:
 			add("sprop-vps=QAEMAf//AWAAAAMAkAAAAwAAAwB4mZgJ;sprop-sps=QgEBAWAAAAMAkAAAAwAAAwB4oAPAgBDllmZpJMrgEAAAAwAQAAADAeCA;sprop-pps=RAHBcrRiQA==")
 		}
